@@ -209,6 +209,24 @@ theorem populateU_closed (hc : ClosedU u P) (table : List (Nat × Nat × List UF
   dsimp only
   exact hc.readQ table _ i _ _ _ (runInjU_closed hc table a.1 2 ha)
 
+theorem preEraseFlush_closedU (hc : ClosedU u P) (s : BSt) (h : P s) : P (preEraseFlush s) := by
+  unfold preEraseFlush
+  split
+  · exact frame_closed hc h (flushSinks_frame _)
+  · exact h
+
+theorem flushGate_closedU (hc : ClosedU u P) (table : List (Nat × Nat × List UFOp)) (s : BSt) (n : Nat) (h : P s) :
+    P (flushGate (runInjU u table) s n) := by
+  unfold flushGate
+  split
+  · exact frame_closed hc h (flushSinks_frame _)
+  · dsimp only
+    have h7 := runInjU_closed hc table s 7 h
+    split
+    · exact frame_closed hc (hc.aux _ { runInjU u table s 7 with lastFlush := (runInjU u table s 7).now } h7 rfl rfl rfl)
+        (flushSinks_frame _)
+    · exact h7
+
 theorem pollU_closed (hc : ClosedU u P) (table : List (Nat × Nat × List UFOp)) (s : BSt) (h : P s) :
     P (pollU u (runInjU u table) s) := by
   unfold pollU
@@ -220,10 +238,10 @@ theorem pollU_closed (hc : ClosedU u P) (table : List (Nat × Nat × List UFOp))
   · split
     · exact processLowestU_closed hc s1 hp
     · exact batchLoopU_closed hc table _ s1 hp
-  · have h3 := frame_closed hc (runInjU_closed hc table s1 5 hp) (flushSinks_frame _)
+  · have h3 := flushGate_closedU hc table _ (runInjU u table s1 5).cfg.flushInterval (runInjU_closed hc table s1 5 hp)
     have hr := allEmptyU_closed hc _ h3
     split
-    · exact cleanupLoggersU_closed hc table _ (cleanupContextsU_closed hc _ hr)
+    · exact cleanupLoggersU_closed hc table _ (preEraseFlush_closedU hc _ (cleanupContextsU_closed hc _ hr))
     · exact hr
 
 theorem exitLoopU_closed (hc : ClosedU u P) (table : List (Nat × Nat × List UFOp)) (tick : Nat) :
@@ -234,7 +252,7 @@ theorem exitLoopU_closed (hc : ClosedU u P) (table : List (Nat × Nat × List UF
     dsimp only
     have hr := allEmptyU_closed hc s h
     split
-    · exact cleanupLoggersU_closed hc table _ (cleanupContextsU_closed hc _ (frame_closed hc hr (flushSinks_frame _)))
+    · exact cleanupLoggersU_closed hc table _ (preEraseFlush_closedU hc _ (cleanupContextsU_closed hc _ (frame_closed hc hr (flushSinks_frame _))))
     · have h0 : P { (allEmptyU s).1 with now := (allEmptyU s).1.now + tick } := hc.aux _ _ hr rfl rfl rfl
       have hp := populateU_closed hc table _ h0
       generalize populateU u (runInjU u table) { (allEmptyU s).1 with now := (allEmptyU s).1.now + tick } = r at hp
